@@ -203,7 +203,7 @@ def lib_case(rng):
 
 
 def process_case(rng, tier):
-    cmds = RANDOM_CMDS if tier == "thorough" else rng.sample(RANDOM_CMDS[:-len(MULTI_MOD)], 8) + MULTI_MOD
+    cmds = RANDOM_CMDS if tier == "thorough" else rng.sample(RANDOM_CMDS[:-len(MULTI_MOD)], 7) + MULTI_MOD
     seeds = [0, 1, 2 ** 31, -5] if tier == "thorough" else [0, rng.randint(1, 10 ** 6)]
     jobs = []
     for c in cmds:
@@ -223,12 +223,15 @@ def process_case(rng, tier):
               ["pbgen", "--seed", sd, "-of", "latex", "php", "glrd", "4", "5", "2"],
               ["pbgen", "--seed", sd, "randkcnf", "3", "7", "9"], ["pbgen", "--seed", sd, "--varnames", "subsetcard", "5"],
               ["pbgen", "--seed", sd, "tseitin", "randomodd", "gnd", "6", "3"], ["pbgen", "--seed", sd, "op", "6", "3"]):
-        jobs.append((c, seeds[-1]))
+        # quick tier: the two LaTeX descriptions, one OPB/varnames run and a rotating half of the others
+        if tier == "thorough" or "latex" in c or "-of" in c or rng.random() < 0.4:
+            jobs.append((c, seeds[-1]))
     # error reports name the valid choices, computed from dictionary views (reviewed hazards 6, 7): the whole report
     # (stderr) must not depend on the process either
     for c in (["cnfgen", "--seed", sd, "kcolor", "3", "glrd", "5", "4", "2"], ["cnfgen", "--seed", sd, "kcolor", "3", "nosuchfile.xyz", "addedges"],
               ["cnfgen", "--seed", sd, "php", "gnp", "5", ".5"]):
-        jobs.append((c, "err"))
+        if tier == "thorough" or rng.random() < 0.67:
+            jobs.append((c, "err"))
     for sd in ("0", "7"):
         jobs.append((["cnfshuffle", "--seed", sd], sd))
     # input files named relative to the working directory (plain and through symbolic links; the two working
